@@ -219,3 +219,132 @@ pub(crate) fn ref_sample_row<const K: usize>(row: &[Trans; K], w: u32) -> Option
 fn k_sample_state_exact_k2() {
     c05_row_exact::<2>();
 }
+
+// ------------------------------------------------------------------------------------------
+// C12: the state-level judgement of validation
+// ------------------------------------------------------------------------------------------
+pub(crate) fn format_stub(_args: core::fmt::Arguments<'_>) -> String {
+    String::new()
+}
+/// HashSet::insert replaced by a no-op: the set stays empty, `contains` answers from the empty
+/// fast path, and no SipHash / hashbrown probing is executed symbolically. The price: duplicates go
+/// unnoticed, so the row kernels ASSUME pairwise distinct targets (the duplicate clause is decided
+/// by k_validate_dup_* on concrete rows with the real HashSet).
+fn hs_insert_noop<T, S, A: std::alloc::Allocator>(_this: &mut std::collections::HashSet<T, S, A>, v: T) -> bool {
+    core::mem::forget(v);
+    true
+}
+fn random_state_fixed() -> std::hash::RandomState {
+    // RandomState::new() reaches getrandom (FFI); two fixed keys instead
+    unsafe { core::mem::transmute::<[u64; 2], std::hash::RandomState>([0x0123_4567_89ab_cdef, 0xfedc_ba98_7654_3210]) }
+}
+
+fn c12_row<const K: usize>() {
+    const NT: Option<Vec<Trans>> = None;
+    let mut row: [Trans; K] = [Trans(0, 0.0); K];
+    let mut i = 0;
+    while i < K {
+        row[i] = Trans(kani::any(), kani::any());
+        let mut j = 0;
+        while j < i {
+            kani::assume(row[j].0 != row[i].0);
+            j += 1;
+        }
+        i += 1;
+    }
+    let decl = row;
+    let num_states: usize = kani::any();
+    kani::assume(num_states >= 1 && num_states <= STATE_MAX);
+    let mut tr = [NT; EVENT_NUM];
+    tr[3] = Some(unsafe { vec_over(&mut row) });
+    let s = state_from_parts(None, (None, None), tr);
+    let r = s.validate(num_states);
+    if r.is_ok() {
+        let mut sum: f32 = 0.0;
+        let mut i = 0;
+        while i < K {
+            let (t, p) = (decl[i].0, decl[i].1);
+            assert!(t < num_states || t == STATE_END || t == STATE_SIGNAL, "C12: every accepted transition target is an existing state or a pseudo-state");
+            assert!(p > 0.0 && p <= 1.0, "C12: every accepted transition probability is a real number in (0,1] (NaN never accepted)");
+            sum += p;
+            i += 1;
+        }
+        assert!(sum > 0.0 && sum <= 1.0, "C12: the accepted per-event probability sum is a real number of at most 1 (NaN never accepted)");
+    }
+    kani::cover!(r.is_ok() && K > 1 && decl[K - 1].0 == STATE_SIGNAL, "row with the signal pseudo-state accepted");
+    kani::cover!(r.is_err(), "row rejected");
+    core::mem::forget(r);
+    core::mem::forget(s);
+}
+
+#[kani::proof]
+#[kani::unwind(15)]
+#[kani::stub(alloc::fmt::format, format_stub)]
+#[kani::stub(std::collections::HashSet::insert, hs_insert_noop)]
+#[kani::stub(std::hash::RandomState::new, random_state_fixed)]
+fn k_validate_row_k1() {
+    c12_row::<1>();
+}
+#[kani::proof]
+#[kani::unwind(15)]
+#[kani::stub(alloc::fmt::format, format_stub)]
+#[kani::stub(std::collections::HashSet::insert, hs_insert_noop)]
+#[kani::stub(std::hash::RandomState::new, random_state_fixed)]
+fn k_validate_row_k2() {
+    c12_row::<2>();
+}
+
+static mut G_DIST_VALIDATE_CALLS: usize = 0;
+static mut G_DIST_VALIDATE_ERR_AT: usize = usize::MAX;
+fn dist_validate_ghost(_d: &crate::dist::Dist) -> Result<(), Error> {
+    unsafe {
+        let k = G_DIST_VALIDATE_CALLS;
+        G_DIST_VALIDATE_CALLS += 1;
+        if k == G_DIST_VALIDATE_ERR_AT {
+            return Err(Error::PaddingLimit);
+        }
+    }
+    Ok(())
+}
+fn dd() -> crate::dist::Dist {
+    crate::dist::Dist { dist: crate::dist::DistType::Uniform { low: 0.0, high: 0.0 }, start: 0.0, max: 0.0 }
+}
+
+/// State::validate judges EVERY distribution of the state's action and counters: each is handed
+/// to Dist::validate (ghost: counts the calls, rejects the harness-chosen one), and a rejected
+/// distribution rejects the state.
+#[kani::proof]
+#[kani::unwind(15)]
+#[kani::stub(alloc::fmt::format, format_stub)]
+#[kani::stub(crate::dist::Dist::validate, dist_validate_ghost)]
+fn k_validate_state_dists() {
+    const NT: Option<Vec<Trans>> = None;
+    let od = |b: bool| if b { Some(dd()) } else { None };
+    let has_limit: bool = kani::any();
+    let kind: u8 = kani::any();
+    kani::assume(kind < 5);
+    let action = match kind {
+        0 => None,
+        1 => Some(Action::Cancel { timer: crate::action::Timer::All }),
+        2 => Some(Action::SendPadding { bypass: kani::any(), replace: kani::any(), timeout: dd(), limit: od(has_limit) }),
+        3 => Some(Action::BlockOutgoing { bypass: kani::any(), replace: kani::any(), timeout: dd(), duration: dd(), limit: od(has_limit) }),
+        _ => Some(Action::UpdateTimer { replace: kani::any(), duration: dd(), limit: od(has_limit) }),
+    };
+    let (ca, cb, cad, cbd): (bool, bool, bool, bool) = (kani::any(), kani::any(), kani::any(), kani::any());
+    let mk = |present: bool, d: bool| if present { Some(Counter { operation: crate::counter::Operation::Set, dist: od(d), copy: kani::any() }) } else { None };
+    let s = state_from_parts(action, (mk(ca, cad), mk(cb, cbd)), [NT; EVENT_NUM]);
+    let err_at: usize = kani::any();
+    unsafe { G_DIST_VALIDATE_ERR_AT = err_at };
+    let r = s.validate(1);
+    let calls = unsafe { G_DIST_VALIDATE_CALLS };
+    let in_action = match kind { 0 | 1 => 0, 2 => 1, 3 => 2, _ => 1 } + if kind >= 2 && has_limit { 1 } else { 0 };
+    let expected = in_action + (ca && cad) as usize + (cb && cbd) as usize;
+    if r.is_ok() {
+        assert!(calls == expected, "C12: every distribution of an accepted state's action and counters was judged by the distribution validation");
+        assert!(err_at >= expected, "C12: a state with a rejected distribution is rejected");
+    }
+    kani::cover!(r.is_ok() && expected == 5, "state with five distributions accepted");
+    kani::cover!(r.is_err(), "state rejected for a distribution");
+    core::mem::forget(r);
+    core::mem::forget(s);
+}
